@@ -248,7 +248,7 @@ def instances(tier):
         out.append(Inst(bip_scn, dict(nsub=2, simple=1, nforeign=1, two_hop=True), budget=80))
         out.append(Inst(bip_scn, dict(nsub=2, simple=1, nforeign=0, two_hop=False), budget=80))
         out.append(Inst(foreign_scn, dict(ttl_max=2, renew=False, action="none"), budget=80, path_timeout=90))
-        out.append(Inst(foreign_scn, dict(ttl_max=2, renew=True, action="none"), budget=80, path_timeout=90))
+        out.append(Inst(foreign_scn, dict(ttl_max=1, renew=True, action="none"), budget=80, path_timeout=90))
         out.append(Inst(foreign_scn, dict(ttl_max=1, renew=False, action="unregister"), budget=80, path_timeout=90))
         out.append(Inst(foreign_scn, dict(ttl_max=1, renew=False, action="delete"), budget=80, path_timeout=90))
     else:
